@@ -89,7 +89,7 @@ RULES = [
     (r"ast_grep::verify::run_test_rule_impl(::\{closure#0\})?$", r"unwrap", r"write_fmt", "STARTUP-ONLY", "writing the report to the terminal; fails only on a closed stdout"),
     # ---------------- CLI printing -------------------------------------------------------------
     (r"cloud_print::CloudProcessor as .*::print_(diffs|matches)$", r"panic_fmt", None, "SAFE", "`sg run` never selects the cloud printer (format flag exists only on `sg scan`)"),
-    (r"(colored_print::ColoredProcessor as .*::print_rule|cloud_print::print_rule|colored_print::print_rule_title)$", r"panic_fmt", None, "SAFE", "rules with effective severity off are dropped before scanning (RuleCollection::try_new filters Severity::Off)"),
+    (r"(colored_print::ColoredProcessor as .*::print_rule|cloud_print::print_rule|colored_print::print_rule_title)$", r"panic_fmt", None, "SAFE", "rules with effective severity off are dropped before scanning (RuleCollection::try_new filters Severity::Off; scan --stdin filters on severity since finding F30)", {"guard": "off_rules_never_scanned"}),
     (r"ast_grep::run::RunWithSpecificLang as .*::(build_walk|produce_item|parse_stdin)$", r"expect", None, "SAFE", "RunWithSpecificLang is only constructed when arg.lang is Some"),
     (r"ast_grep::scan::ScanStdin as .*::parse_stdin$", r"index", None, "SAFE", "rules come from read_rule_file/from_yaml_string, which deserialise at least one YAML document or fail"),
     (r"ast_grep::print::Diff::<'n>::generate$", r"assert:overflow_Add", None, "SAFE", "position + deleted_length <= source length"),
